@@ -123,8 +123,10 @@ func VerifCompletionIds(args []string) {
 			vAssert(has(name), "registration/defined-name-missing")
 			if kind == "func" {
 				vAssert(has(name+"("), "registration/function-not-offered-as-a-call")
+				vAssert(!has(name+" "), "registration/function-offered-as-a-variable")
 			} else {
 				vAssert(has(name+" "), "registration/variable-not-offered")
+				vAssert(!has(name+"("), "registration/variable-offered-as-a-call")
 			}
 		} else {
 			vReach("undefined name probed")
